@@ -70,8 +70,8 @@ func genBeh(t *rapid.T, good bool) Beh {
 		b.Status = rapid.IntRange(200, 599).Draw(t, "status")
 		b.Body = rapid.SampledFrom([]string{"", "x", "{not json", "<html><div", "null"}).Draw(t, "body")
 	}
-	if b.Kind == "short_body" && rapid.Bool().Draw(t, "announcesFarMore") {
-		// the same family: a body shorter than its Content-Length, here by many orders of magnitude
+	if (b.Kind == "short_body" || b.Kind == "huge") && rapid.IntRange(0, 2).Draw(t, "announcesFarMore") == 0 {
+		// the same families: a body shorter than its Content-Length, here by many orders of magnitude
 		b = announceBeh(t)
 	}
 	return b
